@@ -257,14 +257,10 @@ impl<R: RealNumberInternalTrait> Number<R> {
         match self {
             Number::Integer(num) => Number::Integer(num),
             Number::Real(num) => Number::Real(num.floor()),
-            Number::Rational(a, b) => Number::Integer({
-                let quot = a / b;
-                if quot >= 0 || quot * b == a {
-                    quot
-                } else {
-                    quot - 1
-                }
-            }),
+            Number::Rational(a, b) => {
+                let (a, b) = (a as i64 * (b as i64).signum(), (b as i64).abs());
+                Number::Integer(a.div_euclid(b) as i32)
+            }
         }
     }
 
@@ -272,14 +268,10 @@ impl<R: RealNumberInternalTrait> Number<R> {
         match self {
             Number::Integer(num) => Number::Integer(num),
             Number::Real(num) => Number::Real(num.ceil()),
-            Number::Rational(a, b) => Number::Integer({
-                let quot = a / b;
-                if quot <= 0 || quot * b == a {
-                    quot
-                } else {
-                    quot + 1
-                }
-            }),
+            Number::Rational(a, b) => {
+                let (a, b) = (a as i64 * (b as i64).signum(), (b as i64).abs());
+                Number::Integer(-(-a).div_euclid(b) as i32)
+            }
         }
     }
 
